@@ -130,13 +130,27 @@ func (t *Term) FieldChain() (*Term, []string) {
 const big_ = "(*math/big.Int)."
 const modI = "(*" + ModPath + "/common.modInt)."
 
-type termBuilder struct {
-	memo map[ssa.Value]*Term
+type memoKey struct {
+	v  ssa.Value
+	at ssa.Instruction
 }
 
-// TermOf builds the canonical term of v.
+type termBuilder struct {
+	memo map[memoKey]*Term
+	at   ssa.Instruction // use site for big.Int object state (nil = none)
+}
+
+// TermOf builds the canonical term of v. *big.Int names that may be read after
+// a later in-place mutation of their object become opaque ("stale") leaves.
 func TermOf(v ssa.Value) *Term {
-	tb := &termBuilder{memo: map[ssa.Value]*Term{}}
+	tb := &termBuilder{memo: map[memoKey]*Term{}}
+	return tb.of(v, 0)
+}
+
+// TermAt builds the term of v as read by instruction `at`: a *big.Int denotes
+// the state of its object at that site (the last dominating in-place setter).
+func TermAt(v ssa.Value, at ssa.Instruction) *Term {
+	tb := &termBuilder{memo: map[memoKey]*Term{}, at: at}
 	return tb.of(v, 0)
 }
 
@@ -154,16 +168,79 @@ func (tb *termBuilder) of(v ssa.Value, d int) *Term {
 	if v == nil {
 		return &Term{Op: "nil"}
 	}
-	if t, ok := tb.memo[v]; ok {
+	key := memoKey{v: v}
+	sv := Strip(v)
+	mutable := false
+	if isBigPtr(sv.Type()) {
+		if muts := BigMuts(BigRoot(sv)); len(muts) > 0 {
+			mutable = true
+			key.at = tb.at
+		}
+	}
+	if t, ok := tb.memo[key]; ok {
 		return t
 	}
 	if d > 40 {
 		return opaque(v)
 	}
-	tb.memo[v] = opaque(v) // cycle guard (phis)
-	t := normalize(tb.build(v, d))
-	tb.memo[v] = t
+	tb.memo[key] = opaque(v) // cycle guard (phis)
+	var t *Term
+	if mutable {
+		t = tb.bigState(sv, d)
+	}
+	if t == nil {
+		t = normalize(tb.build(v, d))
+	}
+	if t.V == nil && len(t.Args) > 0 {
+		// remember which SSA value an interior node came from (not for leaves shared by Strip)
+		t = &Term{Op: t.Op, Args: t.Args, Name: t.Name, V: sv}
+	}
+	tb.memo[key] = t
 	return t
+}
+
+// bigState resolves a *big.Int whose object is mutated in place. nil = fall
+// back to the functional reading of v (safe because no later mutation is read through v).
+func (tb *termBuilder) bigState(v ssa.Value, d int) *Term {
+	if tb.at == nil || tb.at.Parent() != v.Parent() {
+		if c, ok := v.(*ssa.Call); ok && BigSetter(c) {
+			if bigStale(c) {
+				return &Term{Op: "opaque", V: v, Name: "stale:" + opaque(v).Name}
+			}
+			return nil
+		}
+		// the object itself (allocation, NewInt) read somewhere after a mutation: needs a site
+		root := BigRoot(v)
+		if root == v {
+			muts := BigMuts(root)
+			if refs := v.Referrers(); refs != nil {
+				for _, u := range *refs {
+					for _, m := range muts {
+						if u != ssa.Instruction(m) && u.Parent() == m.Parent() && InstrReaches(m, u) {
+							return &Term{Op: "opaque", V: v, Name: "stale:" + opaque(v).Name}
+						}
+					}
+				}
+			}
+		}
+		return nil
+	}
+	m, ok := bigStateAt(v, tb.at)
+	if !ok {
+		return &Term{Op: "opaque", V: v, Name: "ambiguous-state:" + opaque(v).Name}
+	}
+	if m == nil {
+		// initial state of the object
+		root := BigRoot(v)
+		if root == v {
+			return nil
+		}
+		return tb.of(root, d+1)
+	}
+	if ssa.Value(m) == v {
+		return nil // v is exactly the state-defining call
+	}
+	return normalize(tb.call(m, d+1))
 }
 
 func (tb *termBuilder) build(v ssa.Value, d int) *Term {
@@ -232,6 +309,10 @@ func (tb *termBuilder) fieldSel(fr *FieldRef, d int) *Term {
 func (tb *termBuilder) call(c *ssa.Call, d int) *Term {
 	name := CalleeName(c)
 	args := c.Call.Args
+	// arguments are read at the call: big.Int objects denote their state there
+	saved := tb.at
+	tb.at = c
+	defer func() { tb.at = saved }()
 	arg := func(i int) *Term { return tb.of(args[i], d+1) }
 	if strings.HasPrefix(name, big_) {
 		m := strings.TrimPrefix(name, big_)
@@ -299,6 +380,7 @@ func (tb *termBuilder) call(c *ssa.Call, d int) *Term {
 		if i := strings.LastIndex(short, "."); i >= 0 {
 			short = short[i+1:]
 		}
+		short = strings.TrimPrefix(short, "builtin:")
 		return &Term{Op: "call:" + short, Args: as}
 	}
 	return opaque(c)
@@ -459,10 +541,10 @@ func toTFact(f Fact) TFact {
 		return tf
 	}
 	if f.X != nil {
-		tf.X = TermOf(f.X)
+		tf.X = TermAt(f.X, f.At)
 	}
 	if f.Y != nil {
-		tf.Y = TermOf(f.Y)
+		tf.Y = TermAt(f.Y, f.At)
 	}
 	return tf
 }
@@ -581,6 +663,28 @@ func PossibleCmp(facts []TFact, isX, isY func(*Term) bool) Ord {
 	possible := Any
 	for _, f := range facts {
 		if f.Kind != FCmp || f.X == nil || f.Y == nil {
+			continue
+		}
+		switch {
+		case isX(f.X) && isY(f.Y):
+			possible &= f.Ord
+		case isX(f.Y) && isY(f.X):
+			possible &= f.Ord.Flip()
+		}
+	}
+	return possible
+}
+
+// PossibleIntCmp: orderings of machine-integer x relative to constant k still possible.
+func PossibleIntCmp(facts []TFact, isX func(*Term) bool, k int64) Ord {
+	return PossibleIntCmpT(facts, isX, func(t *Term) bool { v, ok := termInt(t); return ok && v == k })
+}
+
+// PossibleIntCmpT: orderings of machine-integer x relative to y still possible.
+func PossibleIntCmpT(facts []TFact, isX, isY func(*Term) bool) Ord {
+	possible := Any
+	for _, f := range facts {
+		if f.Kind != FInt || f.X == nil || f.Y == nil {
 			continue
 		}
 		switch {
